@@ -8,6 +8,8 @@ SYNC_TYPES = re.compile(r"std::(mutex|recursive_mutex|shared_mutex|timed_mutex|a
 ENGINE_TYPES = re.compile(r"std::(mersenne_twister_engine|linear_congruential_engine|subtract_with_carry_engine|"
                           r"discard_block_engine|independent_bits_engine|shuffle_order_engine)<")
 DISTRIBUTION = re.compile(r"std::\w+_distribution<")
+# distributions whose objects carry hidden state between draws (libstdc++: a cached deviate or an embedded normal distribution)
+STATEFUL_DISTRIBUTION = re.compile(r"std::(normal|lognormal|gamma|chi_squared|fisher_f|student_t|poisson|binomial|negative_binomial)_distribution<")
 ENTROPY_CALLS = re.compile(r"^(std::random_device::.*|rand|srand|std::rand|std::srand|random|srandom|drand48|lrand48|time|std::time|"
                            r"clock|std::clock|clock_gettime|gettimeofday|getpid|rdtsc|__rdtsc|getrandom|arc4random|"
                            r"std::chrono::.*::now|std::this_thread::get_id)$")
@@ -233,6 +235,31 @@ def rule_P2b(prog, fixture=False):
         for s in engines[1:]:
             res.add("P2b:second-engine:" + s["name"], VIOLATED, "%s:%d" % (prog.rel(s["file"]), s["line"]), s["name"],
                     "a second static engine exists: rng(seed) cannot reproduce draws taken from it")
+    # P2c: a distribution object that outlives the call keeps hidden state (the cached second normal deviate, ...)
+    # which rng(seed) does not reset: reproducibility then depends on how many values were drawn before
+    reset_in_rng = set()
+    for f in prog.functions.values():
+        if f.qn.rsplit("::", 1)[-1] == "rng":
+            for n in f.walk():
+                if n.k == "CXXMemberCallExpr" and n.callee and n.callee.get("qn", "").endswith("::reset"):
+                    o = n.call_object()
+                    o = o.strip_all() if o is not None else None
+                    if o is not None and o.k == "DeclRefExpr" and o.decl.get("k") == "global":
+                        reset_in_rng.add(o.decl.get("qn"))
+    for sv in sorted(prog.statics.values(), key=lambda x: (x["file"], x["line"])):
+        if STATEFUL_DISTRIBUTION.search(sv["ctype"]):
+            if sv["name"] in reset_in_rng:
+                res.add("P2b:static-distribution:" + sv["name"], DISCHARGED, "%s:%d" % (prog.rel(sv["file"]), sv["line"]), sv["name"],
+                        "stateful distribution with static storage is reset by rng()")
+                continue
+            res.add("P2b:static-distribution:" + sv["name"], VIOLATED, "%s:%d" % (prog.rel(sv["file"]), sv["line"]), sv["name"],
+                    "distribution object of type %s has static storage duration: its internal state survives rng(seed), so the "
+                    "stream after re-seeding depends on earlier draws" % sv["type"])
+    for cn, cj in sorted(prog.classes.items()):
+        for fld in cj["fields"]:
+            if STATEFUL_DISTRIBUTION.search(fld["ctype"]):
+                res.add("P2b:member-distribution:%s::%s" % (cn, fld["name"]), VIOLATED, "%s:%d" % (prog.rel(cj["file"]), fld["line"]),
+                        "%s::%s" % (cn, fld["name"]), "distribution object kept as a data member: hidden state outside the control of rng(seed)")
     engine_names = {s["name"] for s in engines}
     draws = 0
     for f in sorted(prog.functions.values(), key=lambda f: (f.file, f.line)):
